@@ -428,6 +428,15 @@ def mon_c05(cfg, steps):
     for s in steps:
         t = s.optoks
         st = s.post
+        if s.aborted and s.res == "ok" and s.st is not None:
+            # inside a transaction that is later rolled back the books must balance after every successful call all the same
+            sums = {}
+            for (bid, u, a) in s.st["reqs"]:
+                sums[bid] = sums.get(bid, 0) + a
+            pb = s.st["batches"].get(s.st["pending"])
+            if pb is not None and sums.get(s.st["pending"], 0) != pb["total"]:
+                out.append({"step": s.idx, "what": "pending batch total %d differs from the sum of its requests %d (after %s)" % (
+                    pb["total"], sums.get(s.st["pending"], 0), s.optoks[5] if s.optoks[0] == "exec" else s.optoks[0])})
         if st is None:
             continue
         if not s.aborted:
@@ -902,6 +911,13 @@ import hashlib as _hl
 
 def mon_c09(cfg, steps):
     out = []
+    for s in steps:
+        t = s.optoks
+        if t[0] == "fn" and t[1] == "vchan" and s.fn:
+            a = unhex(t[2]).decode("utf-8", "replace")
+            mm = _re.fullmatch(r"channel-([0-9]+)", a)
+            if s.fn[0] == "1" and not (mm and int(mm.group(1)) < 2 ** 64):
+                out.append({"step": s.idx, "what": "channel id %r is accepted: with anything but channel-<n> the hashed string <channel>/<sender> no longer parses back uniquely" % a})
     configured = None     # the channel id as supplied by the admin in the last accepted instantiate / UpdateConfig
     conf_native = None    # (staker, collector) as supplied by the admin, likewise
     for s in steps:
@@ -1447,3 +1463,21 @@ MONITORS["C03"] = (lambda cfg, steps: mon_c03(cfg, steps) + mon_state_query(cfg,
 MONITORS["C09"] = (lambda cfg, steps: mon_c09(cfg, steps) + mon_migrate_roles(cfg, steps))
 MONITORS["C08"] = (lambda cfg, steps: mon_c08(cfg, steps) + mon_migrate_roles(cfg, steps))
 MONITORS["C10"] = (lambda cfg, steps: mon_c10(cfg, steps) + mon_migrate_flags(cfg, steps))
+MONITORS["C17"] = with_migration(mon_c17)
+
+
+def mon_migrate_rest(cfg, steps):
+    """an upgrade leaves every record it has no business with (state totals, batches, requests, ownership) untouched"""
+    keys = ("unrelated records", "rewrote records", "refused migration changed")
+    return [f for f in mon_c18(cfg, steps) if any(k in f["what"] for k in keys)]
+
+
+def mon_migrate_config(cfg, steps):
+    """an upgrade carries the configuration over field by field"""
+    return [f for f in mon_c18(cfg, steps) if "config" in f["what"]]
+
+
+for _p in ("C03", "C05", "C06", "C11", "C12"):
+    MONITORS[_p] = (lambda m: (lambda cfg, steps: m(cfg, steps) + mon_migrate_rest(cfg, steps)))(MONITORS[_p])
+for _p in ("C14", "C15"):
+    MONITORS[_p] = (lambda m: (lambda cfg, steps: m(cfg, steps) + mon_migrate_config(cfg, steps)))(MONITORS[_p])
